@@ -20,3 +20,98 @@ func init() {
 		c.Extra("depth_switch_rejects", l)
 	})
 }
+
+func init() {
+	registry["X00"].Rules = []func(*Ctx){func(c *Ctx) {
+		opOf := ruleDispatchTables(c, "fast", []string{"fast.Comp.BinaryExpr1", "fast.Comp.UnaryExpr", "fast.Comp.setVar", "fast.Comp.setPlace"}, "A5")
+		ruleOperatorAnchor(c, "fast", opOf, "A5-operator", "A6-order", nil)
+		ext := extendOps(c, "fast", opOf)
+		ruleShortcuts(c, "fast", ext, "A7-shortcut", nil)
+		helpers := map[string]string{}
+		for fn, op := range ext {
+			if _, direct := opOf[fn]; !direct {
+				helpers[funcFullName(fn)] = op
+			}
+		}
+		c.Extra("pow2_helpers", helpers)
+		rulePow2(c, "fast", helpers, "A8-pow2")
+	}}
+}
+
+func init() {
+	register(&PropDef{ID: "X01", Title: "dev: dump pow2 helper terms", Rules: []func(*Ctx){func(c *Ctx) {
+		fd := families(c, "fast")
+		seen := map[string]int{}
+		for _, m := range fd.members {
+			switch m.FD.Name.Name {
+			case "mulPow2", "quoPow2", "remPow2", "varQuoPow2", "placeQuoPow2":
+				s := m.FD.Name.Name + " [" + kindCategory(firstOr(m.Kinds)) + "] " + m.pathString(m.KindIdx+1) + " :: " + showTerm(canonMember(c.P.Fset, m, fd.di[m.FD]), m.Tau)
+				seen[s]++
+			}
+		}
+		for _, k := range sortedKeys(seen) {
+			println(seen[k], k)
+		}
+	}}})
+}
+
+func firstOr(s []string) string {
+	if len(s) > 0 {
+		return s[0]
+	}
+	return ""
+}
+
+// ---------------------------------------------------------------- C01
+
+var c01Files = []string{"binary_ops.go", "binary_shifts.go", "binary_relops.go", "binary_eqlneq.go", "binary.go", "unary.go", "unary_ops.go", "identifier.go", "expr.go", "expr1.go", "util.go"}
+
+func init() {
+	register(&PropDef{
+		ID:    "C01",
+		Title: "Typed expressions over basic types evaluate exactly as compiled Go",
+		Explanation: "Decided, for every closure the fast interpreter can produce for a typed binary/unary expression or a variable read (enumerated exhaustively from source, not from values): " +
+			"U sibling uniformity of every kind-specialised family in binary_*.go, unary_ops.go, identifier.go, util.go (a closure that differs from its same-category siblings in operator, operand, type, depth or accessor is reported); " +
+			"A3 the frame on which a variable's slot is read equals the depth label of its arm (0,1,2,file,top, upn in the general arm) and A4 Ints/Vals storage matches the IntBind guard; A2 reflect accessor category equals the category of the conversion target; " +
+			"A5 the dispatch table BinaryExpr1/UnaryExpr is injective and complete over Go's 19 binary operators and every closure of a compile function applies exactly the Go operator of the arm that dispatches to it; A6 left operand from the left expression, right from the right; " +
+			"A7 every constant shortcut (x+0, x*1, x*0, x&-1 ...) is an identity of Go semantics for every operand category that reaches it (table justified by IEEE-754 / two's complement); A8 every power-of-two strength reduction matches a proven shape, signed shapes only in signed arms, negation only for negative divisors, shift = integerLen(y)-1 under isPowerOfTwo(y); " +
+			"G1 signed shift counts are converted to uint64 only after the negative-count panic; D1 constants are folded iff both operands are constant. " +
+			"The oracle for each closure is Go's own operator on the labelled type (closure bodies are Go expressions over typed operands). " +
+			"Not decided: typing of mixed operands (toSameFuncType / prepareShift), EvalConst itself, comparisons of non-basic types, values computed by reflect or go/constant.",
+		Assumptions: []string{"Go compiler semantics of operators on basic types", "identity table A7 and rewrite shapes A8 in the checker source (reviewed against IEEE-754 and two's complement)", "go/types, go/packages at x/tools v0.29.0"},
+		Rules: []func(*Ctx){func(c *Ctx) {
+			ruleUniformity(c, "fast", c01Files, "U-uniform")
+			ruleDepth(c, "fast", []string{"identifier.go"}, "A3-depth", "A4-storage")
+			opOf := ruleDispatchTables(c, "fast", []string{"fast.Comp.BinaryExpr1", "fast.Comp.UnaryExpr"}, "A5")
+			ruleOperatorAnchor(c, "fast", opOf, "A5-operator", "A6-order", nil)
+			ext := extendOps(c, "fast", opOf)
+			ruleShortcuts(c, "fast", ext, "A7-shortcut", nil)
+			helpers := map[string]string{}
+			for fn, op := range ext {
+				if _, direct := opOf[fn]; !direct {
+					helpers[funcFullName(fn)] = op
+				}
+			}
+			rulePow2(c, "fast", helpers, "A8-pow2")
+			ruleNegativeShift(c)
+			ruleBinaryDispatchComplete(c)
+			c.Floor("U-uniform", 900)
+			c.Floor("A3-depth", 100)
+			c.Floor("A5-operator", 500)
+			c.Floor("A6-order", 500)
+			c.Floor("A7-shortcut", 30)
+			c.Floor("A8-pow2", 40)
+		}, func(c *Ctx) { ruleAccessorFiles(c, "fast", c01Files, "A2-accessor") }},
+		Mutants: []Mutant{
+			{Name: "int16-sub-becomes-add", File: "fast/binary_ops.go", Old: "x := x.(func(*Env) int16)\n\t\t\ty := y.(func(*Env) int16)\n\t\t\tfun = func(env *Env) int16 {\n\t\t\t\treturn x(env) - y(env)", New: "x := x.(func(*Env) int16)\n\t\t\ty := y.(func(*Env) int16)\n\t\t\tfun = func(env *Env) int16 {\n\t\t\t\treturn x(env) + y(env)", Canary: true},
+			{Name: "string-add-operands-swapped", File: "fast/binary_ops.go", Old: "fun = func(env *Env) string {\n\t\t\t\treturn x(env) + y(env)", New: "fun = func(env *Env) string {\n\t\t\t\treturn y(env) + x(env)"},
+			{Name: "float32-depth2-reads-depth1", File: "fast/identifier.go", Old: "return *(*float32)(unsafe.Pointer(&env.\n\t\t\t\t\tOuter.Outer.Ints[idx]))", New: "return *(*float32)(unsafe.Pointer(&env.\n\t\t\t\t\tOuter.Ints[idx]))", Canary: true},
+			{Name: "quopow2-int16-parens", File: "fast/binary_ops.go", Old: "return -(n >> shift)", New: "return -n >> shift", Nth: 3},
+			{Name: "asuint64-int16-no-panic", File: "fast/util.go", Old: "\t\t\ti := fun(env)\n\t\t\tif i < 0 {\n\t\t\t\tpanic(negativeShiftAmount)\n\t\t\t}\n\t\t\treturn uint64(i)", New: "\t\t\ti := fun(env)\n\t\t\treturn uint64(i)", Nth: 3},
+			{Name: "xor-dispatched-to-or", File: "fast/binary.go", Old: "z = c.Xor(node, x, y)", New: "z = c.Or(node, x, y)"},
+			{Name: "lss-const-becomes-leq", File: "fast/binary_relops.go", Old: "return x(env) < y\n", New: "return x(env) <= y\n", Nth: 4},
+			{Name: "unsigned-shape-in-signed-arm", File: "fast/binary_ops.go", Old: "n := x(env)\n\t\t\t\t\tif n < 0 {\n\t\t\t\t\t\tn += y_1\n\t\t\t\t\t}\n\t\t\t\t\treturn n >> shift", New: "n := x(env)\n\t\t\t\t\treturn n >> shift", Nth: 1},
+			{Name: "sub-zero-left-shortcut", File: "fast/binary_ops.go", Old: "\t\tif isLiteralNumber(y, 0) {\n\t\t\treturn xe\n\t\t}\n\n\t\tswitch k {\n\t\tcase xr.Int:\n\n\t\t\tx := x.(func(*Env) int)\n\t\t\ty := int(xr.ValueOf(y).Int())\n\t\t\tfun = func(env *Env) int {\n\t\t\t\treturn x(env) - y", New: "\t\tif isLiteralNumber(y, 1) {\n\t\t\treturn xe\n\t\t}\n\n\t\tswitch k {\n\t\tcase xr.Int:\n\n\t\t\tx := x.(func(*Env) int)\n\t\t\ty := int(xr.ValueOf(y).Int())\n\t\t\tfun = func(env *Env) int {\n\t\t\t\treturn x(env) - y"},
+		},
+	})
+}
